@@ -12,7 +12,10 @@ pub fn kinds_for(prop: &str) -> Vec<&'static str> {
 }
 
 pub fn run(ctx: &mut Ctx) {
-    let cfgs = configs::all();
+    let mut cfgs = configs::all();
+    if ctx.sub == "light" || ctx.tool_mode {
+        cfgs.retain(|c| c.core);
+    }
     let thorough = ctx.thorough();
     match ctx.prop.as_str() {
         "C01" => {
@@ -25,7 +28,7 @@ pub fn run(ctx: &mut Ctx) {
                 ranges: false,
                 elems: true,
                 capacity: true,
-                clones: true,
+                clones: false,
                 invalid_pct: 6,
             };
             fam::histories(ctx, "elem-hist", &cfgs, &p);
